@@ -232,7 +232,9 @@ func RunOnce(t *testing.T, sc *Scenario, prefix []int, expect [][]string) (x *Ex
 				opts = append(opts, opt{th, th.Name})
 			}
 			clockAt := -1
-			if x.Ticks < o.Horizon {
+			// deviations may waste ticks before a timer is even armed, so the budget grows
+			// with the bound: every timer of the scenario still fires within the run
+			if o.Horizon > 0 && x.Ticks < o.Horizon+o.Bound+1 {
 				// the clock ranks between normal threads and fault threads
 				clockAt = len(opts)
 				opts = append(opts, opt{nil, "clock"})
